@@ -758,6 +758,9 @@ def run_ienv(case, npz):
         rec.run(nm, ev)
     envs = {}
     for meth in ('iter', 'TM', None):
+        if meth == 'iter' and Lp != L:
+            continue            # (asserted precondition of MPOEnvironmentBuilder: equal unit cells)
+
         def mk(meth=meth):
             env = MPOEnvironment(psi, H, psi, force_init_method=meth)
             envs[str(meth)] = env
@@ -786,7 +789,8 @@ def run_ienv(case, npz):
         b = MPOEnvironmentBuilder(H, psi)
         data, envs_, Es = b.init_LP_RP_iterative('both', calc_E=True)
         out['iter_Es'] = [cnum(x) for x in Es]
-    rec.run('MPOEnvironmentBuilder', it)
+    if Lp == L:
+        rec.run('MPOEnvironmentBuilder', it)
 
     def ied():
         # documented option of expectation_value: "init_env_data : dict  Optional environment data, if known."
